@@ -10,6 +10,59 @@ CHECKS = {
   technique="runtime reference-model monitor at the API boundary + HMAC-constructor hook (observes key/message, substitutes the digest to drive the formatting stage)",
   text="Every GenerateHOTP execution of a seeded boundary/random workload is compared byte-for-byte with an independent RFC 4226 model (own HMAC, big-integer modulus); unsupported digits/hash values must yield an error; through the verif hook the monitor also observes the exact (key, message) of the HMAC and pushes chosen 31-bit values through the real truncation/modulus/formatting code. Exploration, not enumeration of 2^64 counters or 2^31 values.",
   design="7/C01"),
+ "C02": dict(
+  technique="runtime reference-model monitor (differential against independent HOTP at floor(unix/period)) over generated instants, zones, monotonic readings and periods",
+  text="Each GenerateTOTP execution is compared with the reference HOTP at floor(unix/period); one second is rendered as 20 different time.Time values (nanoseconds, zones, monotonic reading) and each must give the reference code; step boundaries +-2 s; defaults (nil params, period 0) are checked consistently across GenerateTOTP, ValidateTOTP and GenerateTOTPURL. Held on the executions produced.",
+  design="7/C02"),
+ "C03": dict(
+  technique="runtime window-membership oracle: verdicts of ValidateHOTP compared with the reference set of codes for counters max(0,c-s)..c+s",
+  text="For generated (secret, digits, hash, counter, window) the genuine codes at distance -(s+3)..+(s+3) and hostile strings are submitted; the verdict must equal membership in the independently computed window set (so coincidences cannot alarm); windows > 10 must be refused; nil parameters mean 6/SHA-1/2. Exploration over boundary counters (c<s, 2^31, 2^32, 2^63) and random ones.",
+  design="7/C03"),
+ "C04": dict(
+  technique="runtime window-membership oracle on ValidateTOTP + derivation counting through the HMAC-constructor hook (logical work bound, cut-off at 64)",
+  text="As C03 with time steps; refused skews 11..2^64-1 are probed functionally (genuine codes at distance 0/1/11/skew must be rejected with an error) and by counting HMAC derivations per call through the hook (more than 21 is a violation, a runaway loop is cut off by a sentinel panic instead of hanging); without the hook, huge skews run in a child process judged by allocation counts. No wall-clock verdicts.",
+  design="7/C04"),
+ "C05": dict(
+  technique="runtime reference-model monitor for RFC 6287 + HMAC-constructor hook recording the exact message bytes",
+  text="GenerateOCRA is executed for every advertised suite, parser-accepted grammar strings and hand-built configurations (hash x digits x 32 field subsets x formats x password hashes x suite texts) through every suite construction route, with admissible boundary-length inputs; results are compared with an independent RFC 6287 model, repeated with garbage in unselected fields; the hook compares the HMAC message byte for byte with the documented layout; the formatting stage is driven with chosen 31-bit values.",
+  design="7/C05"),
+ "C06": dict(
+  technique="runtime differential monitor: ValidateOCRA verdict versus equality with GenerateOCRA's own result on the same data",
+  text="For the C05 population plus derived failure cases, GenerateOCRA is run and ValidateOCRA is then executed on the generated code, edits, truncations, neighbours' codes and arbitrary strings: verdict must equal (submitted == generated), or (false, error) whenever generation fails (undecodable secret, each unusable-suite rule, each inadmissible-input rule).",
+  design="7/C06"),
+ "C07": dict(
+  technique="runtime reference-model monitor on DecodeSecret and all six entry points + HMAC key observation through the hook",
+  text="Every accepted spelling (padding x case x surrounding white space) of byte strings of every length 0..256 must decode to exactly the bytes and give identical results at all generation/validation entry points (the key reaching the HMAC is observed); generated invalid texts (outside-alphabet characters incl. Unicode letters that upper-case into the alphabet, impossible lengths, inner padding) must be rejected.",
+  design="7/C07"),
+ "C08": dict(
+  technique="offline exactly-once checker over a recorded event log: crypto/rand.Reader replaced by a recording position-unique stream; race detector on concurrent histories",
+  text="Histories of RandomSecret calls (sequential and 2..64 goroutines under -race) run against a recording random source; an offline checker shows each secret is upper-case unpadded base32 of exactly 20/32/64 bytes that are contiguous, unmodified stream segments handed out during that call, that no stream position feeds two secrets, that DecodeSecret inverts it, and that all 253 unsupported enum values give (\"\", error).",
+  note="Trusted: crypto/rand.Reader is the OS CSPRNG by default (what is monitored is that the library takes its bytes from it, unmodified, once); Go race detector; reference base32.",
+  design="7/C08"),
+ "C10": dict(
+  technique="crash/hang monitor: hostile-argument workload over the whole exported API in child processes (plain, -race/checkptr, -asan), recover() per call, call log written before each call, derivation cut-off hook",
+  text="Every exported function and method (listed at run time from /repo with go/parser; Must* helpers excluded by the property) is called with hostile values from the property's domain sketch; a recovered panic, a process-fatal error attributed through the pre-call log, or unbounded work (hook cut-off / allocation-corroborated hang) is a violation. A wall-clock watchdog firing alone is inconclusive.",
+  design="7/C10"),
+ "C13": dict(
+  technique="runtime invariant monitor on every (ok, err) pair and error text produced by the validation workloads and by failing calls of the other operations",
+  text="The (ok, err) pair of every ValidateHOTP/TOTP/OCRA execution of reduced C03/C04/C06 workloads plus an explicit failure-cause sweep must be (true,nil) or (false,error); each error text (all Unwrap levels) is scanned for the secret in every spelling/raw/hex form and for any code of the acceptance window (keys >= 10 bytes, codes >= 6 digits so coincidences are excluded).",
+  design="7/C13"),
+ "C14": dict(
+  technique="runtime reference-predicate monitor; the finite usability grid is enumerated completely, admission by per-field length sweeps",
+  text="All 250 880 configurations of the stated grid are judged by SuiteConfig.Validate, NewSuite, GenerateOCRA and ValidateOCRA against the usability predicate; for 160 usable configuration classes each field is swept over every length 0..140 (nil and empty) with the others valid (thorough: all field pairs over 19 boundary lengths) and OCRAInput.Validate / GenerateOCRA / ValidateOCRA outcomes are compared with the independent admission predicate.",
+  design="7/C14"),
+ "C15": dict(
+  technique="runtime differential monitor: library registry/parser versus an independent strict RFC 6287 suite-name parser; registry exhaustive, grammar enumerated",
+  text="Every advertised name is instantiated and compared field by field with what an independent parser says the name means (list / known-suite test / lookup / registry map must agree); every string of the 1 442 880-string grammar (thorough: all; quick: every 11th + boundaries) must be rejected or accepted with exactly its meaning and report itself as its name; ~350 malformed strings must be rejected.",
+  design="7/C15"),
+ "C16": dict(
+  technique="runtime round-trip monitor with an independent RFC 3986 decoder of the URL text",
+  text="Generated (issuer, account, secret, digits 0..255, hash, period) sets go through Generate*URL(...).String(); the text is decoded by an independent percent-decoder and by ParseOTPAuthURL(url.Parse(text)); both must return the input (so escape-twice/unescape-twice cannot pass). Hand-assembled URLs with digits/period texts over -2^63..2^64+ must fail or return exactly the number written.",
+  design="7/C16"),
+ "C17": dict(
+  technique="runtime reference-model monitor: helper outputs versus independent encoders, and end-to-end OCRA codes for numeric questions versus the RFC 6287 model",
+  text="Each helper runs on boundary/random 64-bit values and on strings of length 0..300 from digit/hex/sign/letter classes and is compared with an independent encoder (value-exact, or error / documented panic for malformed text); HexInputToOCRA over all 3^5 valid/invalid/empty combinations; decimal questions of every length 1..64 through the helper and GenerateOCRA must equal the RFC value.",
+  design="7/C17"),
 }
 
 PENDING_REASON = "monitor not built yet in this revision of /verif (work in progress; see DESIGN.md section 7 for the planned runtime monitor)"
